@@ -171,7 +171,7 @@ def attachments_checked(ctx):
     f = m.method('frappy.modules.Attached', '__get__', inherited=False)
     ctx.analysed(f)
     cfg = CFG(f.node, m, f.module)
-    stores = [n for n in body_walk(f.node) if isinstance(n, ast.Subscript) and isinstance(n.ctx, ast.Store) and 'attachedModules' in src(n.value)]
+    stores = [n for n in body_walk(f.node) if isinstance(n, ast.Subscript) and isinstance(n.ctx, ast.Store) and 'attachedModules' in src(resolved(n.value, f.node))]
     if not stores:
         raise AnchorMissing('store into attachedModules not found')
     sid = [i for s in stores for i in cfg.node_of(s)]
@@ -180,10 +180,34 @@ def attachments_checked(ctx):
         ifs = [n for n in body_walk(f.node) if isinstance(n, ast.If) and pred(n.test) and n.body and isinstance(n.body[0], ast.Raise)
                and 'ConfigError' in src(n.body[0])]
         ok = bool(ifs) and any(all(cfg.dominates(cfg.ids(n.test), i) for i in sid) for n in ifs)
+        if not ok:
+            # the refusal may be reported through a flag (`complaint = ...` / `if complaint: raise`): from the failing side of the test of
+            # the looked-up object, the store is not reachable (flags bound to literals are followed)
+            gmc = [i for c in calls_in(f.node) if call_attr(c) == 'get_module' for i in cfg.node_of(c)]
+            found = False
+            clean = True
+            for t in cfg.nodes:
+                if t.kind != 'test' or isinstance(t.ast, ast.stmt) or not gmc or not cfg.dominates(gmc, t.id):
+                    continue
+                core, neg = t.ast, False
+                while isinstance(core, ast.UnaryOp) and isinstance(core.op, ast.Not):
+                    core, neg = core.operand, not neg
+                hit = (isinstance(core, ast.Name) and what == 'existence') or \
+                    (what == 'type' and isinstance(core, ast.Call) and dotted(core.func) == 'isinstance' and 'basecls' in src(core))
+                if not hit:
+                    continue
+                fail = [b for b, lab in cfg.succ[t.id] if lab == ('T' if neg else 'F')]
+                if set(sid) & reach_with_flags(cfg, fail, avoid=[]):
+                    # (an existence test may be repeated as the guard of the store itself: only the first one after the lookup counts)
+                    if what == 'type' or not found:
+                        clean = False
+                found = True
+            ok = found and clean and any('ConfigError' in src(r) for r in body_walk(f.node) if isinstance(r, ast.Raise))
         ctx.check(ok, f'{f.qualname}:{what} check before caching', f.node, f'the {what} check (ConfigError) dominates the store',
                   f'an attached module is cached without the {what} check: a missing / wrongly typed attachment is not reported as a configuration error', f)
     gm = [i for c in calls_in(f.node) if call_attr(c) == 'get_module' for i in cfg.node_of(c)]
-    ctx.check(bool(gm) and all(cfg.dominates(gm, i) for i in sid), f'{f.qualname}:attached module fully initialised', f.node,
+    ctx.check(bool(gm) and (all(cfg.dominates(gm, i) for i in sid) or not (set(sid) & reach_with_flags(cfg, [cfg.entry], avoid=gm))),
+              f'{f.qualname}:attached module fully initialised', f.node,
               'the module comes from secNode.get_module (initialised)', 'the attached module is not obtained through get_module', f)
 
 
@@ -198,7 +222,8 @@ def attachment_cache_has_one_writer(ctx):
         if not f.module.name.startswith('frappy.') or f.module.name.startswith('frappy.gui'):
             continue
         for x in body_walk(f.node):
-            if isinstance(x, ast.Subscript) and isinstance(x.ctx, ast.Store) and isinstance(x.value, ast.Attribute) and x.value.attr == 'attachedModules':
+            xv = resolved(x.value, f.node) if isinstance(x, ast.Subscript) and isinstance(x.ctx, ast.Store) and isinstance(x.value, ast.Name) else getattr(x, 'value', None)
+            if isinstance(x, ast.Subscript) and isinstance(x.ctx, ast.Store) and isinstance(xv, ast.Attribute) and xv.attr == 'attachedModules':
                 n += 1
                 ctx.analysed(f)
                 ctx.check(q == 'frappy.modules.Attached.__get__', f'{q}:attachment cache written by Attached.__get__ only', x, 'the cache writer',
@@ -581,3 +606,46 @@ def every_configured_start_value_is_written(ctx):
     ones that are false (0, False, an empty string)"""
     from sa.rules import c10
     c10.a_false_start_value_is_still_a_value(ctx)
+
+
+
+@rule('C15.R3c', min_instances=1)
+def only_modules_are_cached_as_attachments(ctx):
+    """Attached.__get__: what is stored into attachedModules is a module object - the store lies where the looked-up object was
+    found truthy (after `if not modobj: raise`, or under `if modobj:`).  A None cached for an optional attachment that is not
+    configured ends up among the values SecNode._getSortedModules walks at shutdown (`module.name`): the AttributeError leaves
+    shutdown_modules before the first shutdownModule(), no module is shut down at all"""
+    m = ctx.m
+    f = m.method('frappy.modules.Attached', '__get__', inherited=False)
+    ctx.analysed(f)
+    cfg = CFG(f.node, m, f.module)
+    n = 0
+    for st in body_walk(f.node):
+        if not isinstance(st, ast.Assign):
+            continue
+        tg = [t for t in st.targets if isinstance(t, ast.Subscript) and 'attachedModules' in src(resolved(t.value, f.node))]
+        if not tg:
+            continue
+        n += 1
+        v = st.value
+        names = {t.id for t in st.targets if isinstance(t, ast.Name)} | ({v.id} if isinstance(v, ast.Name) else set())
+        ids = set(cfg.ids(st))
+        if isinstance(v, ast.Name):
+            truthy = sides_with_fact(cfg, lambda a, tv: (tv and isinstance(a, ast.Name) and a.id in names) or
+                                     (isinstance(a, ast.Compare) and len(a.ops) == 1 and isinstance(a.left, ast.Name) and a.left.id in names
+                                      and isinstance(a.comparators[0], ast.Constant) and a.comparators[0].value is None
+                                      and ((not tv and isinstance(a.ops[0], ast.Is)) or (tv and isinstance(a.ops[0], ast.IsNot)))))
+            ctx.check(bool(ids) and ids <= truthy, f'{f.qualname}:only a module object is cached', st, f'`{src(v)}` was tested before it is stored',
+                      f'`{src(st)}` is reached without a test that `{src(v)}` is a module: for an optional attachment that is not configured None is cached, '
+                      'and the shutdown walk over attachedModules fails on it before any module was shut down', f)
+            continue
+        # the result of a call stored at once (`modobj = known[self.name] = self._lookup(...)`): a helper that can hand back None
+        h = m.method('frappy.modules.Attached', v.func.attr) if isinstance(v, ast.Call) and isinstance(v.func, ast.Attribute) and dotted(v.func.value) == 'self' \
+            and m.has_method('frappy.modules.Attached', v.func.attr) else None
+        if h is not None and any(isinstance(r, ast.Return) and (r.value is None or (isinstance(r.value, ast.Constant) and r.value.value is None)) for r in body_walk(h.node)):
+            ctx.bad(f'{f.qualname}:only a module object is cached', st, f'`{src(st)}` stores what {h.name}() returns, and that is None when no module name is configured: '
+                    'None is cached as an attachment and the shutdown walk over attachedModules fails on it', f)
+        else:
+            ctx.undecided(f'{f.qualname}:only a module object is cached', st, f'`{src(v)}`: the stored value is not a tested local', f)
+    if not n:
+        raise AnchorMissing('store into attachedModules not found in Attached.__get__')
